@@ -57,11 +57,20 @@ def execute(c, workdir):
     harness.boot()
     SP.install_stub()
     import vtlengine.API as A
-    b = SP.build(c, workdir)
+    b = SP.build_corpus(c, workdir) if "corpus" in c else SP.build(c, workdir)
     keep = []
     b["description"] = describe_call(c, b)      # rendered before the call: afterwards the arguments may differ
     before = {k: S.snap(v, keep) for k, v in b["owned"].items()}
-    out = harness.call(getattr(A, c["fn"]), *b["args"], **b["kwargs"])
+    saved = {k: os.environ.get(k) for k in b.get("env", {})}
+    os.environ.update({k: str(v) for k, v in b.get("env", {}).items()})
+    try:
+        out = harness.call(getattr(A, c["fn"]), *b["args"], **b["kwargs"])
+    finally:
+        for k, v in saved.items():
+            if v is None:
+                os.environ.pop(k, None)
+            else:
+                os.environ[k] = v
     after = {k: S.snap(v) for k, v in b["owned"].items()}
     muts = []
     for k in before:
@@ -93,12 +102,12 @@ def finding_key(c, d, registry):
     if t in ("df", "ndarray") and node["id"] in registry:
         argkind, cls = registry[node["id"]]
     elif t == "df":
-        argkind, cls = "dataframe", c["fv"]
+        argkind, cls = "dataframe", c.get("fv", "corpus-frame")
     elif t == "path":
-        argkind, cls = base + "-file", c[_ARGCLASS_AXIS.get(arg, "dp")]
+        argkind, cls = base + "-file", c.get(_ARGCLASS_AXIS.get(arg, "dp"), "corpus-call")
     else:
         argkind = base + ("-" + node["pytype"].lower() if t in ("dict", "list", "struct") else "")
-        cls = _entry_class(d.get("old")) or c[_ARGCLASS_AXIS.get(arg, "dp")]
+        cls = _entry_class(d.get("old")) or c.get(_ARGCLASS_AXIS.get(arg, "dp"), "corpus-call")
     return "C22:%s:%s:%s:%s" % (c["fn"], argkind, cls, d["kind"])
 
 
@@ -121,6 +130,9 @@ def describe_call(c, b):
     return "%s(%s)" % (c["fn"], ", ".join(parts))
 
 
+_REPORTED = set()
+
+
 def run_case(c, rec, workdir):
     stub0 = SP.STUB_CALLS["n"]
     b, out, before, muts = execute(c, workdir)
@@ -129,17 +141,25 @@ def run_case(c, rec, workdir):
     for s in before.values():
         S.count_nodes(s, nodes)
     mutable = any(S.contains_mutable(s) for s in before.values())
-    key = tuple(c[k] for k in ("fn", "script_kind", "outcome", "ds", "dp", "fv", "vd", "er", "sv", "mp")) + (oc,)
+    corpus = "corpus" in c
+    if corpus:
+        key = (c["fn"], "corpus", c["corpus"], oc)
+    else:
+        key = tuple(c[k] for k in ("fn", "script_kind", "outcome", "ds", "dp", "fv", "vd", "er", "sv", "mp")) + (oc,)
     sample = None
-    if c["fv"] in ("bom-column", "readonly-numpy") or c["dp"] == "dict-frame+url":
+    if not corpus and (c["fv"] in ("bom-column", "readonly-numpy") or c["dp"] == "dict-frame+url"):
         sample = {"case": c, "observed": oc, "snapshot_nodes": nodes, "mutations": [m["kind"] for m in muts]}
     rec.case(key, oc, nontrivial=mutable, sample=sample)
-    rec.count("calls:" + c["fn"])
+    rec.count(("corpus_calls:" if corpus else "calls:") + c["fn"])
+    if corpus:
+        c = dict(c, outcome="-")
     rec.count("frames_snapshotted", nodes.get("df", 0))
     rec.count("files_snapshotted", nodes.get("path", 0))
     rec.count("containers_snapshotted", nodes.get("dict", 0) + nodes.get("list", 0) + nodes.get("struct", 0))
     rec.count("url_stub_calls", SP.STUB_CALLS["n"] - stub0)
-    if _INTENDED.get(c["outcome"]) == oc:
+    if corpus:
+        pass
+    elif _INTENDED.get(c["outcome"]) == oc:
         rec.count("intended_outcome_met")
         rec.count("met:%s:%s" % (c["fn"], c["outcome"]))
     else:
@@ -155,9 +175,14 @@ def run_case(c, rec, workdir):
         if fk in seen:
             continue
         seen.add(fk)
+        rec.count("cases:" + fk)
+        if fk in _REPORTED:      # one example per key and worker process is enough (the recorder keeps at most 2000)
+            continue
+        _REPORTED.add(fk)
         what = ("%s %s (call %s): caller's %s at %s: %s -- expected: argument unchanged. Call: %s" % (
             c["fn"], "returned" if oc == "ok" else "raised " + (out[2] + ("/" + str(out[3]) if out[3] else "")),
-            SP.case_id(c), d["node"].get("pytype", d["node"]["t"]), d["path"], d["detail"], b["description"]))
+            ("corpus call %s of %s" % (c["corpus"], c.get("test")) if corpus else SP.case_id(c)),
+            d["node"].get("pytype", d["node"]["t"]), d["path"], d["detail"], b["description"]))
         rec.violation(fk, what, {"case": c, "key": fk})
     return oc, muts
 
@@ -355,7 +380,9 @@ class Check:
             "class forced by the script (success, syntax, semantic, data-load, run-time error, success with "
             "output_folder), restricted to the axes the function has. distinct = distinct (case, observed outcome "
             "class); non-trivial = at least one argument of the call is an object a callee could modify (dict, list, "
-            "DataFrame, pysdmx object or an existing file). " + SP.QUICK_RULE)
+            "DataFrame, pysdmx object or an existing file). thorough additionally re-executes every recorded public-API call "
+            "of the upstream test-suite corpus (those without an output folder) with the same snapshot around it. "
+            + SP.QUICK_RULE)
     ASSUMPTIONS = [
         "the network fetch vtlengine.API._InternalApi._handle_url_datapoints (also bound as vtlengine.API._handle_url_datapoints) "
         "is replaced by a local function with the same contract ({name: Dataset}, {}, {name: DataFrame}); the substitution "
@@ -375,6 +402,7 @@ class Check:
         if not oracle_selftest(rec):
             return {"exhaustive": False}
         first, rest = SP.space(tier)
+        corpus_cases = SP.corpus_cases() if tier == "thorough" else []
         full = sum(1 for _ in SP.full_space())
         budget = float(os.environ.get("VTLMC_C22_BUDGET_S", DEFAULT_BUDGET_S))
         t0 = time.time()
@@ -382,10 +410,14 @@ class Check:
         harness.pmap(_work, [(None, ch) for ch in harness.chunks(harness.seeded_order(first, seed), CHUNK)], rec)
         if rest:
             deadline = (t0 + budget) if budget > 0 else None
-            harness.pmap(_work, [(deadline, ch) for ch in harness.chunks(harness.seeded_order(rest, seed), CHUNK)], rec)
-        cases = first + rest
+            items = [(deadline, ch) for ch in harness.chunks(harness.seeded_order(corpus_cases, seed), CHUNK)]
+            items += [(deadline, ch) for ch in harness.chunks(harness.seeded_order(rest, seed), CHUNK)]
+            harness.pmap(_work, items, rec)      # in this order: the recorded corpus calls, then the rest of the product
+            if not corpus_cases:
+                rec.tool_error("the corpus index gave no call to re-execute")
+        cases = first + corpus_cases + rest
         skipped = rec.counters.get("cases_skipped_budget", 0)
-        done = sum(v for k, v in rec.counters.items() if k.startswith("calls:"))
+        done = sum(v for k, v in rec.counters.items() if k.startswith(("calls:", "corpus_calls:")))
         if skipped:
             rec.note("budget of %.0f s exhausted: %d of %d cases executed (the quick sub-lattice of %d completely), %d skipped"
                      % (budget, done, len(cases), len(first), skipped))
@@ -405,8 +437,8 @@ class Check:
         for k in [k for k in rec.counters if k.startswith("met:")]:
             del rec.counters[k]
         return {"exhaustive": skipped == 0, "cases_in_tier": len(cases), "cases_executed": done,
-                "cases_skipped_budget": skipped, "cases_in_full_space": full,
-                "tier_is_full_space": len(cases) == full, "budget_s": budget if rest else None,
+                "cases_skipped_budget": skipped, "cases_in_full_space": full, "corpus_calls_in_tier": len(corpus_cases),
+                "tier_is_full_space": len(first) + len(rest) == full, "budget_s": budget if rest else None,
                 "axes": {"functions": list(SP.FUNCS), "script_kinds": list(SP.SCRIPT_KINDS), "outcomes": list(SP.OUTCOMES),
                          "data_structures": list(SP.DS_KINDS), "datapoints_frame_kinds": list(SP.DP_FRAME_KINDS),
                          "datapoints_path_kinds": list(SP.DP_PATH_KINDS), "frame_variants": list(SP.FRAME_VARIANTS),
@@ -421,7 +453,8 @@ class Check:
         try:
             b, out, before, muts = execute(c, wd)
             keys = sorted({finding_key(c, d, b["registry"]) for d in muts})
-            print("C22 replay: %s -> %s; mutations: %s" % (SP.case_id(c), observed_class(out), keys or "none"))
+            print("C22 replay: %s -> %s; mutations: %s" % (
+                "corpus call " + c["corpus"] if "corpus" in c else SP.case_id(c), observed_class(out), keys or "none"))
             for d in muts:
                 print("   %s %s: %s" % (d["path"], d["kind"], d["detail"][:300]))
             return data.get("key") in keys if data.get("key") else bool(keys)
